@@ -8,7 +8,7 @@ from .. import config, scen
 from .. import alphabet as A
 from ..ref import jwk as rjwk, jws as rjws, b64
 from ..ref.jwa import jws_sign, jws_verify, ecdh_z, RefError
-from .common import Outcome, Part, viol, call
+from .common import Outcome, Part, viol, call, handed_over, COPY_FORMS
 from . import c13
 
 LEVEL = "exploration"
@@ -99,8 +99,10 @@ def h_roundtrip(ctx):
                                         {"kid": "cle\u0301-\u212b-\u1112\u1161\u11ab"}])
     form = ctx.choose("export", ["jwk-default", "jwk-private", "jwk-public"] if kty == "oct" else EXPORTS)
     hist = ctx.deviate("export_history", ["once", "twice", "with-params-then-plain", "mutate-result-then-again", "every-other-form-first"])
+    # the key that is exported may be a copy (copy / pickle protocols) of the key that was imported
+    held = ctx.choose("key_held_as", ["as-is"] + (COPY_FORMS if hist == "once" and form in ("jwk-default", "jwk-public", "pem") else []))
     tag = f"{kty}{'/' + jwk['crv'] if 'crv' in jwk else ''}"
-    lab = f"{label} via {how} ({'private' if private else 'public'}) params={params} export={form} history={hist}"
+    lab = f"{label} via {how} ({'private' if private else 'public'}) params={params} export={form} history={hist}" + ("" if held == "as-is" else f", exported from a copy made with {held}")
     if how == "bytearray-wiped-afterwards":
         # the caller reads the secret / the PEM text into a buffer, imports it, and wipes the buffer
         from joserfc.jwk import OctKey, RSAKey, ECKey, OKPKey
@@ -125,7 +127,9 @@ def h_roundtrip(ctx):
         given = {**(jwk if private else rjwk.public_of(jwk)), **(params or {})}
     if not k.ok:
         return Outcome("import-failed", [viol(f"a valid {tag} key cannot be imported via {how}", f"{lab}: {k.exc!r}")], nontrivial=(label, how))
-    key = k.value
+    key = handed_over(k.value, held)
+    if key is None:
+        return Outcome("not-picklable", [], nontrivial=None)
     vs = []
     # ---- export
     def export(form=form):
@@ -239,7 +243,89 @@ def h_roundtrip(ctx):
                 z = call(k2.exchange_derive_key, A.jkey(rjwk.public_of(peer), "dict"))
                 if not z.ok or z.value != ecdh_z(jwk, peer):
                     vs.append(viol(f"re-imported key derives a different ECDH secret ({tag})", f"{lab}"))
-    return Outcome(f"{kty}:{form}:{'ok' if not vs else 'bad'}", vs, nontrivial=(label, how, private, form, hist, repr(params)))
+    return Outcome(f"{kty}:{form}:{'ok' if not vs else 'bad'}", vs, nontrivial=(label, how, private, form, hist, repr(params), held))
+
+
+GEN_KINDS = [("oct", 128), ("oct", 256), ("RSA", 2048), ("EC", "P-256"), ("EC", "P-384"), ("EC", "P-521"), ("EC", "secp256k1"),
+             ("OKP", "Ed25519"), ("OKP", "Ed448"), ("OKP", "X25519"), ("OKP", "X448")]
+
+
+def h_generated(ctx):
+    """Keys made by the library's own generators, under every combination of their options: each export is what the options say (a public-only key
+    has no private member anywhere), conforms, re-imports to the material of the generated key, and carries the parameters that were given."""
+    from joserfc.jwk import JWKRegistry, KeySet, OctKey, RSAKey, ECKey, OKPKey
+    kty, arg = ctx.choose("key", GEN_KINDS)
+    via = ctx.choose("generated_by", ["Class.generate_key", "JWKRegistry.generate_key", "KeySet.generate_key_set"])
+    private = ctx.choose("private", [True] if kty == "oct" else [True, False])
+    auto_kid = ctx.choose("auto_kid", [False, True] if via != "KeySet.generate_key_set" else [False])
+    params = ctx.choose("parameters", [None, {"use": "sig"}, {"kid": "given-kid", "key_ops": ["sign", "verify"]}])
+    cls = {"oct": OctKey, "RSA": RSAKey, "EC": ECKey, "OKP": OKPKey}[kty]
+    lab = f"{kty} {arg} by {via}(private={private}, auto_kid={auto_kid}, parameters={params})"
+    tag = f"{kty}{'/' + arg if isinstance(arg, str) else ''}"
+    given_params = copy.deepcopy(params)
+    if via == "Class.generate_key":
+        g = call(cls.generate_key, arg, params, private, auto_kid)
+    elif via == "JWKRegistry.generate_key":
+        g = call(JWKRegistry.generate_key, kty, arg, params, private, auto_kid)
+    else:
+        g = call(lambda: KeySet.generate_key_set(kty, arg, params, private, 2).keys[1])
+    nt = (kty, arg, via, private, auto_kid, repr(params))
+    if not g.ok:
+        return Outcome("generation-failed", [viol(f"key generation fails ({tag})", f"{lab}: {g.exc!r}")], nontrivial=nt)
+    key = g.value
+    vs = []
+    if params != given_params:
+        vs.append(viol(f"key generation alters the caller's parameters ({tag})", f"{lab}: {given_params} -> {params}"))
+    want_private = private or kty == "oct"
+    if bool(key.is_private) != want_private:
+        vs.append(viol(f"a generated key is {'private' if key.is_private else 'public-only'} although private={private} was asked ({tag})", lab))
+    ref = numbers(key)          # the material of the underlying object, read by the independent implementation
+    priv_members = set(rjwk.PRIVATE[kty]) if kty != "oct" else set()
+    exports = [("as_dict()", lambda: key.as_dict()), ("dict(key)", lambda: dict(key)), ("as_dict(private=False)", lambda: key.as_dict(private=False)),
+               ("KeySet([key]).as_dict()", lambda: KeySet([key]).as_dict()["keys"][0]), ("as_dict() again", lambda: key.as_dict())]
+    if kty == "oct":
+        exports = [x for x in exports if "private=False" not in x[0]]
+    for name, f in exports:
+        e = call(f)
+        if not e.ok:
+            vs.append(viol(f"export of a generated key fails ({tag}, {name.split('(')[0]})", f"{lab}: {name}: {e.exc!r}"))
+            continue
+        out = e.value
+        if not want_private or "private=False" in name:
+            leaked = sorted(priv_members & set(out))
+            if leaked:
+                vs.append(viol(f"an export of a public-only generated key carries private members ({tag})", f"{lab}: {name} has {leaked}"))
+                continue
+        elif kty != "oct" and "d" not in out:
+            vs.append(viol(f"the private export of a generated private key lacks the private members ({tag})", f"{lab}: {name}"))
+        check_format(out, ref if "d" in ref or kty == "oct" else ref, "d" in out, tag, vs, f"{lab}: {name}")
+        for m, v in (given_params or {}).items():
+            if out.get(m) != v:
+                vs.append(viol(f"a parameter given to the generator is lost or changed on export ({tag})", f"{lab}: {name}: {m} given {v!r} got {out.get(m)!r}"))
+        if auto_kid and not (given_params or {}).get("kid") and out.get("kid") != rjwk.thumbprint(rjwk.public_of(ref) if kty != "oct" else ref):
+            vs.append(viol(f"auto_kid does not give the generated key its thumbprint as kid ({tag})", f"{lab}: {name}: kid {out.get('kid')!r}"))
+        r2 = call(A.jkey, copy.deepcopy(out), "dict")
+        if not r2.ok:
+            vs.append(viol(f"re-import of an exported generated key fails ({tag})", f"{lab}: {name}: {r2.exc!r}"))
+        elif bool(r2.value.is_private) != ("d" in out or kty == "oct"):
+            vs.append(viol(f"re-import of an export of a generated key yields a {'private' if r2.value.is_private else 'public'} key ({tag})", f"{lab}: {name}"))
+    if kty != "oct":
+        for name, f in (("as_pem(private=False)", lambda: key.as_pem(private=False)), ("as_der(private=False)", lambda: key.as_der(private=False))) + \
+                ((("as_pem()", lambda: key.as_pem()),) if True else ()):
+            e = call(f)
+            if not e.ok:
+                vs.append(viol(f"export of a generated key fails ({tag}, {name.split('(')[0]})", f"{lab}: {name}: {e.exc!r}"))
+                continue
+            r2 = call(lambda: cls.import_key(e.value))
+            if not r2.ok:
+                vs.append(viol(f"re-import of an exported generated key fails ({tag})", f"{lab}: {name}: {r2.exc!r}"))
+                continue
+            should_be_private = want_private and "private=False" not in name
+            if bool(r2.value.is_private) != should_be_private:
+                vs.append(viol(f"re-import of an export of a generated key yields a {'private' if r2.value.is_private else 'public'} key ({tag})", f"{lab}: {name}"))
+            elif rjwk.public_of(numbers(r2.value)) != rjwk.public_of(ref):
+                vs.append(viol(f"re-imported generated key has different material ({tag})", f"{lab}: {name}"))
+    return Outcome(f"generated:{kty}:{'ok' if not vs else 'bad'}", vs, nontrivial=nt)
 
 
 # ------------------------------------------------------------------ malformed JWKs
@@ -468,6 +554,7 @@ def h_bad_parameters(ctx):
 
 PARTS = [
     Part("roundtrips", h_roundtrip, bound={"quick": 1, "thorough": 2}, split_depth=1, budget={"quick": 1500, "thorough": 2400}),
+    Part("generated-keys", h_generated, split_depth=2),
     Part("malformed-jwk", h_malformed, bound={"quick": 1, "thorough": 1}, split_depth=3),
     Part("invalid-parameters-on-native-keys", h_bad_parameters, split_depth=2),
 ]
